@@ -310,6 +310,8 @@ class SymInt:
     __int__ = __index__
 
     def to_bytes(self, length=1, byteorder='big', *, signed=False):
+        if isinstance(length, SymInt):
+            length = engine().concretize(length, 0, 1024)      # case split over the feasible lengths
         w = self.t.size()
         items = []
         for i in range(length):
@@ -327,7 +329,15 @@ class SymInt:
         return SymBytes(items)
 
     def bit_length(self):
-        raise Unsupported('bit_length of symbolic int')
+        """number of bits of a NON-NEGATIVE symbolic int (a negative one is refused), as a term"""
+        w = self.t.size()
+        if engine().branch(self.t < 0):
+            raise Unsupported('bit_length of a negative symbolic int')
+        rw = max(W, 16)
+        bl = z3.BitVecVal(0, rw)
+        for i in range(w - 1):
+            bl = z3.If(z3.Extract(i, i, self.t) == 1, z3.BitVecVal(i + 1, rw), bl)
+        return _mk_int(bl)
 
     def __repr__(self):
         return token_of(self.t)
